@@ -12,7 +12,8 @@ Record case := mk {
   (* implementation: values form as (world index, shape, row-major values) in returned order; high-level form
      as the object ids in returned order *)
   vimpl : option (list (nat * list Z * list Q));
-  himpl : option (list Z) }.
+  himpl : option (list Z);
+  oimpl : option (list (list nat)) }.   (* utils.wcs.array_indices_for_world_objects on the same WCS: array axes per object *)
 
 Definition dotq (u v : list Q) : Q := fold_right Qplus 0%Q (map (fun '(x, y) => (x * y)%Q) (combine u v)).
 Definition linW (A : list (list Q)) (b : list Q) (p : list Q) : list Q :=
@@ -28,7 +29,14 @@ Definition sel (c : case) : result (list nat) :=
 Definition arr_eqb (x y : nat * list Z * list Q) : bool :=
   Nat.eqb (fst (fst x)) (fst (fst y)) && list_eqb Z.eqb (snd (fst x)) (snd (fst y)) && list_eqb Qeq_bool (snd x) (snd y).
 
+Definition objects_ok (c : case) : bool :=
+  match oimpl c with
+  | Some l => list_eqb (list_eqb Nat.eqb) l (objects_axes (corr_of (A c)) (n c) (comps c))
+  | None => true
+  end.
+
 Definition agree (c : case) : bool :=
+  objects_ok c &&
   match sel c with
   | Err _ => match vimpl c, himpl c with None, None => true | _, _ => false end
   | Ok ws =>
